@@ -2098,7 +2098,12 @@ class Scheduler:
             subtree_tasks = job.calc_subtree_tasks()
 
             # Compute final call_hash and record CallNode.
-            if job.recording_provenance():
+            if job.recording_provenance() and job.was_cached and job.call_hash:
+                # The failure was obtained by CSE from an equivalent job, which already recorded
+                # the CallNode (with its child calls). Reuse it, as is done for successful jobs,
+                # instead of recording a second, childless CallNode for the same call.
+                pass
+            elif job.recording_provenance():
                 error_value = ErrorValue(error, error_traceback or Traceback.from_error(error))
                 try:
                     error_hash = self.backend.record_value(error_value)
@@ -2120,6 +2125,7 @@ class Scheduler:
                     subtree_tasks=subtree_tasks,
                 )
 
+            if job.recording_provenance():
                 # Record CallNode context, if present.
                 context = job.get_context()
                 if context:
